@@ -124,6 +124,8 @@ def gen_config(rng, fmt, subset=None):
         c = rng.random()
         if fmt == "keyval":
             pool = u"abcXYZ 012-_.@=é€ü\"'\\/:,{}[]"
+            if c < 0.25:
+                pool += u"\x0b\x0c\x1c\x1e\x85\u2028\u2029\t"      # separators other than the line feed are ordinary value characters
             s = "".join(rng.choice(pool) for _ in range(rng.randint(1, 12))).strip()
             return s or "x"
         pool = u"abc XYZ012\"\\\n\t#;=é€ü中\U0001f600{}[]:,"
@@ -205,29 +207,42 @@ def replay_path(run, fs, g, path, rng, base):
         stype = ConfigManager.TYPE_JSON if fmt == "json" else ConfigManager.TYPE_KEYVAL
         trail.append({"save": fmt, "fields": sorted(k for k, v in want.items() if v is not None), "fresh_dir": not os.path.isdir(pdir)})
         snaps = []
+        # Crash points are snapshots of the directory tree at every file-system operation.  Two passes: first the save runs on a COPY of the
+        # tree and the snapshots take what is on disk as it is (data still in the writer's buffer is lost with the process); then it runs on
+        # the real tree and the snapshots are taken after flushing open files (the other extreme).  Flushing is a side effect on the run
+        # itself, hence the separate passes.
+        err = None
+        for phase in ("unflushed", "flushed"):
+            live = root
+            if phase == "unflushed":
+                live = tempfile.mkdtemp(prefix="dry_", dir=base)
+                shutil.rmtree(live)
+                shutil.copytree(root, live)
+                os.environ["XDG_CONFIG_HOME"] = live
 
-        def hook(i, kind, snaps=snaps):
-            for variant in ("unflushed", "flushed"):
-                if variant == "flushed":
+            def hook(i, kind, snaps=snaps, phase=phase, live=live):
+                if phase == "flushed":
                     fs.flush_all()
                 d = tempfile.mkdtemp(prefix="snap_", dir=base)
                 shutil.rmtree(d)
-                shutil.copytree(root, d)
-                snaps.append((i, kind, variant, d))
-        fs.count, fs.kinds, fs.hook, fs.openfiles = 0, [], hook, []
-        # JSON saves alternate between the manager API and YowProfile.write_config (what the stack itself calls when the server key changes)
-        via_profile = fmt == "json" and len(trail) % 2 == 0
-        trail[-1]["api"] = "YowProfile.write_config" if via_profile else "ConfigManager.save"
-        try:
-            if via_profile:
-                from yowsup.profile.profile import YowProfile
-                YowProfile(PROFILE).write_config(cfg)
-            else:
-                ConfigManager().save(PROFILE, cfg, stype)
-            err = None
-        except Exception as e:
-            err = e
-        fs.hook = None
+                shutil.copytree(live, d)
+                snaps.append((i, kind, phase, d))
+            fs.count, fs.kinds, fs.hook, fs.openfiles = 0, [], hook, []
+            # JSON saves alternate between the manager API and YowProfile.write_config (what the stack itself calls when the server key changes)
+            via_profile = fmt == "json" and len(trail) % 2 == 0
+            trail[-1]["api"] = "YowProfile.write_config" if via_profile else "ConfigManager.save"
+            try:
+                if via_profile:
+                    from yowsup.profile.profile import YowProfile
+                    YowProfile(PROFILE).write_config(cfg)
+                else:
+                    ConfigManager().save(PROFILE, cfg, stype)
+            except Exception as e:
+                err = e
+            fs.hook = None
+            if phase == "unflushed":
+                os.environ["XDG_CONFIG_HOME"] = root
+                shutil.rmtree(live, ignore_errors=True)
         if err is not None:
             run.violation("save:exception:%s:%s" % (type(err).__name__, "fresh-profile" if trail[-1]["fresh_dir"] else "existing-profile"),
                           "save(%s) raised %r (history %s)" % (fmt, err, trail), {"trail": trail})
